@@ -274,6 +274,10 @@ class _BytesBase:
         return snot(self.__eq__(o))
 
     def __hash__(self):
+        # hashing pins every octet (256 paths each): affordable for one or two, hopeless for more
+        nsym = sum(1 for c in self._items() if not _real_isinstance(c, _real_int))
+        if nsym > 2:
+            raise Unsupported("hashing octets with more than two symbolic items (used as a dictionary / cache key)")
         return hash(_real_bytes(conc_items(self._items())))
 
     def __add__(self, o):
